@@ -428,6 +428,48 @@ func c13(run *ev.Run, tier string) {
 	run.Set("get_results_compared", leafCmp)
 	run.Set("packages_built_for_confirmation", built)
 
+	// part 2a: a library caller that fills in the settings itself (no Config.Get, which
+	// also drops entries addressed elsewhere) relies on the packagers alone to keep
+	// addressed entries in their format - also entries of a format-specific type
+	for _, f := range formats {
+		y := "name: ovrdirect\narch: amd64\nversion: 1.0.0\nmaintainer: \"M <m@example.com>\"\ndescription: d\nmtime: 2017-07-14T02:40:00Z\ncontents:\n" +
+			"- src: " + payload + "\n  dst: /opt/ovr/all.txt\n"
+		for _, g := range formats {
+			y += "- src: " + payload + "\n  dst: /opt/ovr/direct-only-" + g + ".txt\n  packager: " + g + "\n"
+		}
+		y += "- dst: /var/log/ovr-direct-ghost-for-deb.log\n  type: ghost\n  packager: deb\n" +
+			"- src: " + payload + "\n  dst: /usr/share/doc/ovr/direct-readme-for-apk\n  type: readme\n  packager: apk\n" +
+			"- src: " + payload + "\n  dst: /usr/share/doc/ovr/direct-licence-for-ipk\n  type: licence\n  packager: ipk\n"
+		run.Case("settings-filled-in-by-the-caller|"+f, true)
+		cfg, err := parseYAML(y, nil)
+		if err != nil {
+			run.Inconclusive("part 2a: " + err.Error())
+			break
+		}
+		info := cfg.Info // the base settings: every entry, whatever its packager
+		res := packageInfo(f, nfpm.WithDefaults(&info))
+		if res.Err != nil || res.Panic != "" {
+			run.Violate("C13/"+f+"/build-error/settings-filled-in-by-the-caller", map[string]any{"error": fmt.Sprint(res.Err, ev.Short(res.Panic, 200))})
+			continue
+		}
+		p := dec.Decode(f, res.Bytes, false)
+		if len(p.Errs) > 0 {
+			run.Violate("C13/"+f+"/undecodable", map[string]any{"case": "settings-filled-in-by-the-caller", "errors": p.Errs})
+			continue
+		}
+		for _, g := range formats {
+			name := "/opt/ovr/direct-only-" + g + ".txt"
+			if present := p.Find(name) != nil; present != (g == f) {
+				run.Violate("C13/"+f+"/per-packager-entry-in-wrong-package/settings-filled-in-by-the-caller", map[string]any{"entry": name, "present": present})
+			}
+		}
+		for _, nowhere := range []string{"/var/log/ovr-direct-ghost-for-deb.log", "/usr/share/doc/ovr/direct-readme-for-apk", "/usr/share/doc/ovr/direct-licence-for-ipk"} {
+			if p.Find(nowhere) != nil {
+				run.Violate("C13/"+f+"/per-packager-entry-in-wrong-package/settings-filled-in-by-the-caller", map[string]any{"entry": nowhere, "present": true})
+			}
+		}
+	}
+
 	// part 2c: ONE parsed configuration, packages for all formats built from it in
 	// every sampled order: what a format ships must be its own effective settings
 	// (= what a fresh parse gives), whatever was built from the configuration
